@@ -49,7 +49,7 @@ Dispatch(e, u16) ==
   /\ phase = "run" /\ e \in pend /\ Minimal(e)
   /\ LET me == e.lp
          ns == Handle(me, st[me], e.ty, e.pid, u16)
-         sends == Sends(me, st[me], e.t, e.ty, u16) IN
+         sends == Sends(me, st[me], e.t, e.ty, e.pid, u16) IN
      /\ st' = [st EXCEPT ![me] = ns]
      /\ pend' = AddSends(pend \ {e}, nid, sends)
      /\ nid' = nid + Len(sends)
